@@ -143,6 +143,9 @@ type view struct {
 	stickyShrink string // an earlier poll of this index saw a shrink batch (symptoms can be latent behind the LRU cache)
 	stickyL1     string
 	files        map[fileID]bool // files this view has taken index entries from since it was opened
+	client       *viewClient
+	noL1Plan     bool     // the index was (re)built from a plan without a level-1 file ...
+	seed         ltx.TXID // ... so the level-1 cursor was seeded with this position
 	broken       bool
 	tt           bool
 	db           *sql.DB
@@ -194,6 +197,18 @@ var vfsSeq int64
 type viewClient struct {
 	*file.ReplicaClient
 	h *harness
+
+	// gate: when armed, the next level-0 listing (the first replica call of a
+	// poll) reports on entered and waits for release -- a slow object store.
+	armed   atomic.Bool
+	entered chan struct{}
+	release chan struct{}
+}
+
+func (c *viewClient) arm() {
+	c.entered = make(chan struct{})
+	c.release = make(chan struct{})
+	c.armed.Store(true)
 }
 
 func (h *harness) newClient() *viewClient {
@@ -201,6 +216,10 @@ func (h *harness) newClient() *viewClient {
 }
 
 func (c *viewClient) LTXFiles(ctx context.Context, level int, seek ltx.TXID, useMetadata bool) (ltx.FileIterator, error) {
+	if level == 0 && c.armed.CompareAndSwap(true, false) {
+		close(c.entered)
+		<-c.release
+	}
 	itr, err := c.ReplicaClient.LTXFiles(ctx, level, seek, useMetadata)
 	if err != nil || level != 1 || len(c.h.hidden) == 0 {
 		return itr, err
@@ -474,7 +493,9 @@ func (h *harness) next() {
 	case "lpoll":
 		h.poll(h.direct, true)
 	case "tt":
-		h.timeTravel(h.direct)
+		h.timeTravel(h.direct, false, arg)
+	case "ttrace":
+		h.timeTravel(h.direct, true, arg)
 	case "sqlopen":
 		h.sqlOpen()
 	case "sqlclose":
@@ -973,13 +994,29 @@ func (h *harness) compare(v *view, fx facts) bool {
 // ---------------------------------------------------------------------------
 // direct view
 
-func (h *harness) newFile() *litestream.VFSFile {
-	f := litestream.NewVFSFile(h.newClient(), "db", h.logger)
+func (h *harness) newFile() (*litestream.VFSFile, *viewClient) {
+	c := h.newClient()
+	f := litestream.NewVFSFile(c, "db", h.logger)
 	f.PollInterval = 24 * time.Hour // the ticker never fires; polls are placed by VerifPollOnce
 	if h.s.Cache > 0 {
 		f.CacheSize = h.s.Cache * h.ps
 	}
-	return f
+	return f, c
+}
+
+// built records what the narrowed F18 predicate needs about the plan a view's
+// index was (re)built from.
+func (v *view) built(fx facts) {
+	v.stickyShrink, v.stickyL1 = "", ""
+	v.files = nil
+	v.addFiles(fx.files)
+	v.noL1Plan = true
+	for _, id := range fx.files {
+		if id.level == 1 {
+			v.noL1Plan = false
+		}
+	}
+	v.seed = v.f.MaxTXID1()
 }
 
 func (h *harness) latestPlan() ([]*ltx.FileInfo, error) {
@@ -996,17 +1033,17 @@ func (h *harness) open() {
 		h.res.Count("open_skipped_no_plan", 1)
 		return
 	}
-	f := h.newFile()
+	f, c := h.newFile()
 	if err := f.Open(); err != nil {
 		h.e.Logf("vfs Open err=%v", err)
 		h.res.Count("open_error", 1)
 		_ = f.Close()
 		return
 	}
-	v := &view{label: "direct", f: f}
+	v := &view{label: "direct", f: f, client: c}
 	h.direct = v
 	fx := h.planFacts("open", plan)
-	v.addFiles(fx.files)
+	v.built(fx)
 	h.e.Logf("vfs Open -> pos=%d maxTXID1=%d", f.Pos().TXID, f.MaxTXID1())
 	h.compare(v, fx)
 }
@@ -1095,15 +1132,27 @@ func (h *harness) poll(v *view, locked bool) {
 // timeTravel: SetTargetTime(T) vs Restore(Timestamp=T), T derived from a
 // recorded level-0 header timestamp; then (sometimes) a poll during time
 // travel, then ResetTime vs the latest position.
-func (h *harness) timeTravel(v *view) {
-	if v == nil || h.e.Arch.Max() == 0 {
+//
+// race: SetTargetTime is issued while a poll is in flight. The poll runs in a
+// goroutine and is held in its first replica call (the level-0 listing) by the
+// gate of the view's client -- the code's own suspension point, f.mu is not
+// held there -- until SetTargetTime has returned; then the listing is released
+// and the poll runs to its end before anything is compared. arg "pos" (pinned
+// demonstration) takes T just after the timestamp of the view's position.
+func (h *harness) timeTravel(v *view, race bool, arg string) {
+	if v == nil || h.e.Arch.Max() == 0 || v.tt {
 		return
 	}
 	n := 1 + h.rng.Intn(h.e.Arch.Max())
+	q := h.rng.Intn(10)
+	pollDuring := h.rng.Intn(2) == 0 // drawn before any timing-dependent outcome
+	if arg == "pos" {
+		n, q = int(v.f.Pos().TXID), 0
+	}
 	ts := time.UnixMilli(h.e.Arch.Files[n].Hdr.Timestamp).UTC()
 	var T time.Time
 	var how string
-	switch q := h.rng.Intn(10); {
+	switch {
 	case q < 6:
 		T, how = ts.Add(time.Millisecond), fmt.Sprintf("timestamp of TXID %d + 1ms", n)
 	case q < 8:
@@ -1113,18 +1162,60 @@ func (h *harness) timeTravel(v *view) {
 	default:
 		T, how = time.UnixMilli(h.e.Arch.Files[h.e.Arch.Max()].Hdr.Timestamp).UTC().Add(time.Hour), "one hour after the newest TXID"
 	}
-	pollDuring := h.rng.Intn(2) == 0 // drawn before any timing-dependent outcome
 	plan, perr := litestream.CalcRestorePlan(h.ctx, h.client, 0, T, h.logger)
 	opt := litestream.NewRestoreOptions()
 	opt.Timestamp = T
 	want, rerr := h.e.RestoreBytes(opt)
-	serr := v.f.SetTargetTime(h.ctx, T)
+	kind := "set-target-time"
+	var serr error
+	if !race {
+		serr = v.f.SetTargetTime(h.ctx, T)
+	} else {
+		kind = "set-target-time-during-poll"
+		pfx := h.pollFacts(v, "poll")
+		before := v.f.Pos().TXID
+		v.client.arm()
+		done := make(chan error, 1)
+		go func() { done <- v.f.VerifPollOnce(h.ctx) }()
+		select {
+		case <-v.client.entered:
+		case err := <-done:
+			v.client.armed.Store(false)
+			h.res.HarnessErr = fmt.Sprintf("gated poll returned (err=%v) without listing level 0", err)
+			return
+		case <-time.After(30 * time.Second):
+			h.res.HarnessErr = "gated poll did not reach its level-0 listing within 30s"
+			close(v.client.release)
+			return
+		}
+		serr = v.f.SetTargetTime(h.ctx, T) // the poll is in flight, waiting for the replica
+		close(v.client.release)
+		var perr2 error
+		select {
+		case perr2 = <-done:
+		case <-time.After(60 * time.Second):
+			h.res.HarnessErr = "released poll did not return within 60s"
+			return
+		}
+		h.e.Logf("direct view poll in flight from pos=%d (%s) while SetTargetTime ran; poll err=%v, pos now %d", before, pfx.desc, perr2, v.f.Pos().TXID)
+		h.res.Count("set_target_time_during_poll", 1)
+		if len(pfx.files) > 0 {
+			h.res.Count("set_target_time_during_poll_with_new_files", 1)
+		}
+		if serr != nil && perr2 == nil {
+			v.addFiles(pfx.files) // no time travel: the poll simply applied
+		}
+	}
 	h.e.Logf("direct view SetTargetTime(%s = %s) err=%v; Restore(Timestamp) err=%v; plan err=%v", T.Format(time.RFC3339Nano), how, serr, rerr, perr)
 	h.res.Evals++
-	fx := h.planFacts("set-target-time", plan)
+	fx := h.planFacts(kind, plan)
 	switch {
 	case serr != nil && rerr != nil:
 		h.res.Count("timetravel_both_unavailable", 1)
+		if race {
+			fx2 := facts{kind: "poll", desc: "poll that was in flight during a refused SetTargetTime"}
+			h.compare(v, fx2)
+		}
 		return
 	case serr != nil:
 		h.violate(v, fx, keyTT, "SetTargetTime(%s) fails (%v) although Restore(Timestamp) for that time succeeds", how, serr)
@@ -1134,23 +1225,25 @@ func (h *harness) timeTravel(v *view) {
 		return
 	}
 	v.tt = true
-	v.stickyShrink, v.stickyL1 = "", ""
-	v.files = nil
-	v.addFiles(fx.files)
-	m := int(v.f.Pos().TXID)
+	v.built(fx)
+	m := int(plan[len(plan)-1].MaxTXID) // the TXID the timestamp restore ends at
 	if img, err := h.image(m); err != nil || !bytes.Equal(img, want) {
-		h.res.HarnessErr = fmt.Sprintf("reference self-check failed: Restore(Timestamp=%s) differs from image_%d (VFS position after SetTargetTime) err=%v", how, m, err)
+		h.res.HarnessErr = fmt.Sprintf("reference self-check failed: Restore(Timestamp=%s) differs from image_%d (end of the restore plan for that time) err=%v", how, m, err)
 		return
 	}
 	h.compares++
 	h.cmpTXIDs[m] = true
-	h.res.Count("compare_set-target-time", 1)
+	h.res.Count("compare_"+kind, 1)
 	if fx.planShrink {
 		h.res.Count("index_built_from_plan_with_shrink", 1)
 	}
 	what := fmt.Sprintf("Restore(Timestamp=%s) (TXID %d)", how, m)
+	if got := int(v.f.Pos().TXID); got != m {
+		what += fmt.Sprintf(" [the view reports position %d]", got)
+		h.res.Count("timetravel_position_differs_from_plan", 1)
+	}
 	ok := h.compareBytes(v, fx, want, what)
-	h.e.Logf("direct view set-target-time: pos=%d -> ok=%v (%s)", m, ok, fx.desc)
+	h.e.Logf("direct view %s: plan ends at %d, view pos=%d -> ok=%v (%s)", kind, m, v.f.Pos().TXID, ok, fx.desc)
 	if ok && pollDuring {
 		// a poll must not disturb the historical view
 		err := v.f.VerifPollOnce(h.ctx)
@@ -1173,8 +1266,7 @@ func (h *harness) timeTravel(v *view) {
 		return
 	}
 	v.tt = false
-	v.files = nil
-	v.addFiles(fx3.files)
+	v.built(fx3)
 	h.compare(v, fx3)
 }
 
@@ -1241,7 +1333,7 @@ func (h *harness) sqlOpen() {
 	h.e.Logf("sqlite connection opened on registered vfs %s -> pos=%d maxTXID1=%d", h.vfsNm, v.f.Pos().TXID, v.f.MaxTXID1())
 	h.res.Count("sql_open", 1)
 	fx := h.planFacts("sql-open", plan)
-	v.addFiles(fx.files)
+	v.built(fx)
 	h.sqlCompare(v, fx)
 }
 
